@@ -48,6 +48,7 @@ type world struct {
 	keys256          []*pki2.Key
 	key384, key224   *pki2.Key
 	keyEd            *pki2.Key
+	cmsChain         map[int][]*x509.Certificate // chains (valid +-10h) for keys256[i], for SignCMS
 }
 
 func hh(n int) time.Duration { return time.Duration(n) * time.Hour }
@@ -75,6 +76,11 @@ func buildWorld() *world {
 	w.cas = []ent{mkCA("ca1", w.R1), mkCA("ca2", w.R2), mkCA("cax", w.Rx), mkCA("caexp", w.Rexp)}
 	for i := 0; i < 4; i++ {
 		w.keys256 = append(w.keys256, pki2.NewKey())
+	}
+	w.cmsChain = map[int][]*x509.Certificate{}
+	for i, k := range w.keys256 {
+		c := pki2.MustIssue(pki2.ASTmpl("cms", iaLeaf, T.Add(-hh(10)), T.Add(hh(10)), k), k, w.cas[0].cert, w.cas[0].key)
+		w.cmsChain[i] = []*x509.Certificate{c, w.cas[0].cert}
 	}
 	w.key384 = pki2.NewKeyCurve(elliptic.P384())
 	w.key224 = pki2.NewKeyCurve(elliptic.P224())
@@ -627,6 +633,17 @@ func specSigners(e *vlib.Env, w *world, p plan, db *pki2.MemDB, signers []trust.
 		if err == nil && before.After(s.Expiration) {
 			bad("sign-after-expiry", "signing succeeds although the signer has expired", s)
 		}
+		// the second signing entry point obeys the same expiry
+		beforeC := time.Now()
+		_, errC := s.SignCMS(context.Background(), msg)
+		afterC := time.Now()
+		if errC != nil && afterC.Before(s.Expiration) {
+			bad("signcms-fails", "SignCMS fails although the signer has not expired: "+errC.Error(), s)
+		}
+		if errC == nil && beforeC.After(s.Expiration) {
+			bad("signcms-after-expiry", fmt.Sprintf("SignCMS succeeds although the signer has expired (expiry %d s, chain NotAfter %d s)",
+				pki2.Rel(s.Expiration, Tc)/sec, pki2.Rel(s.Chain[0].NotAfter, Tc)/sec), s)
+		}
 		// (verification below depends on the wall clock staying inside the case's margin)
 		if err == nil && time.Since(Tc) < 2800*time.Millisecond {
 			prov := trust.FetchingProvider{DB: db, Recurser: fakeRecurser{}}
@@ -655,21 +672,32 @@ func runSign(e *vlib.Env, w *world, r *vlib.Rand) {
 	k := w.keys256[0]
 	for attempt := 0; attempt < 5; attempt++ {
 		t0 := time.Now()
+		// the chain outlives the signer (expiry cut short by a TRC bound) or not (24 h case)
 		s := trust.Signer{PrivateKey: k.Priv, Algorithm: 0, IA: addr.MustParseIA(iaLeaf), SubjectKeyID: k.SKID,
-			Expiration: t0.Add(off), TRCID: cppki.TRCID{ISD: 1, Base: 1, Serial: 1}}
+			Expiration: t0.Add(off), TRCID: cppki.TRCID{ISD: 1, Base: 1, Serial: 1}, Chain: w.cmsChain[0],
+			ChainValidity: cppki.Validity{NotBefore: w.cmsChain[0][0].NotBefore, NotAfter: w.cmsChain[0][0].NotAfter}}
 		alg, _ := selectAlg(k.Priv)
 		s.Algorithm = alg
 		_, err := s.Sign(context.Background(), []byte("m"))
+		_, errC := s.SignCMS(context.Background(), []byte("m"))
 		if time.Since(t0) > 40*time.Millisecond {
 			continue
 		}
-		ans := "ok"
+		ans, ansC := "ok", "ok"
 		if err != nil {
 			ans = "expired"
 		}
+		if errC != nil {
+			ansC = "expired"
+		}
 		e.Op(fmt.Sprintf("sign %d 0", int64(off)), ans, "sign/"+ans)
+		e.Op(fmt.Sprintf("signcms %d 0", int64(off)), ansC, "signcms/"+ansC)
 		if (off < 0) != (err != nil) {
 			e.Violate("C36/sign-expiry", "Sign outcome does not follow the expiry", map[string]any{"expiry_offset_ns": int64(off), "err": fmt.Sprint(err)})
+		}
+		if (off < 0) != (errC != nil) {
+			e.Violate("C36/signcms-expiry", "SignCMS outcome does not follow the signer's expiry",
+				map[string]any{"expiry_offset_ns": int64(off), "chain_not_after_offset_ns": int64(w.cmsChain[0][0].NotAfter.Sub(t0)), "err": fmt.Sprint(errC)})
 		}
 		return
 	}
@@ -683,8 +711,11 @@ func runSignRealTime(e *vlib.Env, w *world, n int) {
 	for i := 0; i < n; i++ {
 		t0 := time.Now()
 		s := trust.Signer{PrivateKey: k.Priv, Algorithm: alg, IA: addr.MustParseIA(iaLeaf), SubjectKeyID: k.SKID,
-			Expiration: t0.Add(250 * time.Millisecond), TRCID: cppki.TRCID{ISD: 1, Base: 1, Serial: 1}}
+			Expiration: t0.Add(250 * time.Millisecond), TRCID: cppki.TRCID{ISD: 1, Base: 1, Serial: 1}, Chain: w.cmsChain[1]}
 		_, err1 := s.Sign(context.Background(), []byte("m"))
+		if _, err := s.SignCMS(context.Background(), []byte("m")); err != nil && time.Since(t0) < 150*time.Millisecond {
+			e.Violate("C36/signcms-fails", "SignCMS fails 250 ms before the expiry", map[string]any{"err": err.Error()})
+		}
 		early := time.Since(t0) < 150*time.Millisecond
 		time.Sleep(time.Until(t0.Add(330 * time.Millisecond)))
 		_, err2 := s.Sign(context.Background(), []byte("m"))
